@@ -495,3 +495,55 @@ GROUPS["C09"] = GROUPS["C09"] + [_COMP[1]]
 PROPS["C01"]["unmechanised"].append(
     "while rule: {inv && guard} step {inv}, {entry} init {inv}, prologue => entry, inv && !guard => post  ==>  the postcondition of "
     "fill_sinks_sloped (each premise is a discharged group; the monolithic DFCC proof is in the thorough tier)")
+
+
+# ------------------------------------------------------------------------------------------------------------------------------------------
+# C09: the order in which the flood pops nodes is a function of the queue CONTENT (finding F6, fixed in /repo 52bb1ab).
+# The base levels live in an unordered_set whose iteration order depends on the bucket count left by earlier set_base_levels() calls;
+# they are pushed in that order.  std::priority_queue<.., std::greater<>> pops a minimum of `operator>`; when that operator is a strict
+# TOTAL order on nodes with different indices the minimum is unique, so the pop sequence -- hence every filled value -- cannot depend
+# on insertion order.  Extracted: pflood_node::operator>.
+pflood_cmp = Unit(
+    name="pflood_node_gt", file=PFLOOD_H, anchor=r"bool operator>\(const pflood_node<FG, T>& other\) const",
+    sig="_Bool pflood_node_gt(size_t m_idx, double m_elevation, struct pf_node_ other)",
+    pre="struct pf_node_ { size_t m_idx; double m_elevation; };\n",
+)
+H_PF_CMP = r"""
+size_t nondet_size_t(void); double nondet_double(void);
+void h_pflood_cmp(void)
+{
+    /* three arbitrary queue elements; elevations are not NaN (documented domain); a node is in the queue at most once (closed flag) */
+    struct pf_node_ a, b, c;
+    a.m_idx = nondet_size_t(); b.m_idx = nondet_size_t(); c.m_idx = nondet_size_t();
+    a.m_elevation = nondet_double(); b.m_elevation = nondet_double(); c.m_elevation = nondet_double();
+    __CPROVER_assume(!isnan(a.m_elevation) && !isnan(b.m_elevation) && !isnan(c.m_elevation));
+    _Bool ab = pflood_node_gt(a.m_idx, a.m_elevation, b), ba = pflood_node_gt(b.m_idx, b.m_elevation, a),
+          bc = pflood_node_gt(b.m_idx, b.m_elevation, c), ac = pflood_node_gt(a.m_idx, a.m_elevation, c),
+          aa = pflood_node_gt(a.m_idx, a.m_elevation, a);
+    __CPROVER_assert(!aa, "heap order irreflexive");
+    __CPROVER_assert(!(ab && ba), "heap order asymmetric");
+    __CPROVER_assert(!(ab && bc) || ac, "heap order transitive");
+    /* C09, from the statement (the result depends only on the inputs in force): two different nodes are never tied, so the element popped
+     * is determined by the queue content, whatever the insertion order */
+    __CPROVER_assert(a.m_idx == b.m_idx || ab || ba, "heap order total on different nodes: the popped element does not depend on insertion order");
+    /* C02: the heap orders by elevation first */
+    __CPROVER_assert(!(a.m_elevation > b.m_elevation) || ab, "a higher node is popped later");
+    __CPROVER_assert(!(a.m_elevation < b.m_elevation) || !ab, "a lower node is never popped later");
+    __CPROVER_assert(0, "canary: postcondition point reachable");
+}
+"""
+G_PF_CMP = Group(
+    name="pflood.heap_order", units=[pflood_cmp], harness=H_PF_CMP, entry="h_pflood_cmp", backend="sat", timeout=120, min_obligations=6,
+    replay="replay/routing.cpp",
+    clause="pflood_node::operator> (the order of the open-node heap) is a strict order that is TOTAL on nodes with different indices and "
+           "compares elevations first: the popped element is a function of the queue content, not of the insertion order of the base levels "
+           "(iteration order of the unordered base-level set)")
+GROUPS["C09"] = GROUPS["C09"] + [G_PF_CMP]
+GROUPS["C02"] = GROUPS["C02"] + [G_PF_CMP]
+PROPS.setdefault("C09", dict(level="other"))
+PROPS["C09"].setdefault("unmechanised", []).append(
+    "priority flood: with a strict total order on queue elements (pflood.heap_order) std::priority_queue::top() is the unique minimum of the "
+    "content, so by induction over the pops the whole flooding sequence -- and every +1 ulp increment -- is a function of (elevation, mask, base-level "
+    "SET), independent of the unordered_set's iteration order (bucket count history, order of the container passed to set_base_levels)")
+PROPS["C09"].setdefault("assumptions", []).append(
+    "pflood.heap_order: a node is in the open heap at most once (it is pushed only when its `closed` flag is set for the first time: pflood.step.queue / pflood.init)")
